@@ -29,7 +29,8 @@ inline uint8_t aes_gf_mul(uint8_t a, uint8_t b) {
 // b = inverse(a) in GF(2^8) (with 0 -> 0), then the affine transformation
 // b'_i = b_i ^ b_(i+4) ^ b_(i+5) ^ b_(i+6) ^ b_(i+7) ^ c_i (indices mod 8), c = 0x63.
 struct AesSbox {
-    uint8_t s[256];
+    uint8_t s[256];   // S-box
+    uint8_t s2[256];  // {02} * S[a] = xtime(S[a]), tabulated only to make aes_round() quicker
     AesSbox() {
         for (int a = 0; a < 256; a++) {
             // multiplicative inverse: a^254 (a^255 = 1 for a != 0; 0^254 = 0 which is the required mapping)
@@ -47,14 +48,16 @@ struct AesSbox {
                           ((inv >> ((i + 6) & 7)) & 1) ^ ((inv >> ((i + 7) & 7)) & 1) ^ ((0x63 >> i) & 1);
                 out |= (uint8_t)(bit << i);
             }
-            s[a] = out;
+            s[a]  = out;
+            s2[a] = aes_xtime(out);
         }
     }
 };
-inline const uint8_t *aes_sbox() {
+inline const AesSbox &aes_tables() {
     static const AesSbox box;  // computed once, thread-safe per C++11 static-local rules
-    return box.s;
+    return box;
 }
+inline const uint8_t *aes_sbox() { return aes_tables().s; }
 
 // ---- Round transformations. The 16-byte state is stored column-major as in FIPS 197 section 3.4:
 //      byte index 4*c + r holds state[r][c]. ----
@@ -104,15 +107,15 @@ inline void aes_round_stepwise(const uint8_t in[16], const uint8_t rk[16], uint8
 // Output column c is MixColumns applied to (S[in[0][c]], S[in[1][c+1]], S[in[2][c+2]], S[in[3][c+3]]),
 // with {02}*a = xtime(a) and {03}*a = xtime(a) ^ a (FIPS 197 section 4.2.1). `out` may alias `in` or `rk`.
 inline void aes_round(const uint8_t in[16], const uint8_t rk[16], uint8_t out[16]) {
-    const uint8_t *S = aes_sbox();
+    const AesSbox &tb = aes_tables();
     uint8_t        r[16];
     for (int c = 0; c < 4; c++) {
-        uint8_t a0 = S[in[4 * c + 0]];              // SubBytes + ShiftRows: row r comes from column c + r
-        uint8_t a1 = S[in[4 * ((c + 1) & 3) + 1]];
-        uint8_t a2 = S[in[4 * ((c + 2) & 3) + 2]];
-        uint8_t a3 = S[in[4 * ((c + 3) & 3) + 3]];
-        uint8_t x0 = aes_xtime(a0), x1 = aes_xtime(a1), x2 = aes_xtime(a2), x3 = aes_xtime(a3);
-        r[4 * c + 0] = (uint8_t)(x0 ^ (x1 ^ a1) ^ a2 ^ a3 ^ rk[4 * c + 0]);  // MixColumns + AddRoundKey
+        // SubBytes + ShiftRows: row r of output column c comes from input column c + r
+        uint8_t i0 = in[4 * c + 0], i1 = in[4 * ((c + 1) & 3) + 1], i2 = in[4 * ((c + 2) & 3) + 2], i3 = in[4 * ((c + 3) & 3) + 3];
+        uint8_t a0 = tb.s[i0], a1 = tb.s[i1], a2 = tb.s[i2], a3 = tb.s[i3];      // a = S[i]
+        uint8_t x0 = tb.s2[i0], x1 = tb.s2[i1], x2 = tb.s2[i2], x3 = tb.s2[i3];  // x = {02} * a
+        // MixColumns + AddRoundKey
+        r[4 * c + 0] = (uint8_t)(x0 ^ (x1 ^ a1) ^ a2 ^ a3 ^ rk[4 * c + 0]);
         r[4 * c + 1] = (uint8_t)(a0 ^ x1 ^ (x2 ^ a2) ^ a3 ^ rk[4 * c + 1]);
         r[4 * c + 2] = (uint8_t)(a0 ^ a1 ^ x2 ^ (x3 ^ a3) ^ rk[4 * c + 2]);
         r[4 * c + 3] = (uint8_t)((x0 ^ a0) ^ a1 ^ a2 ^ x3 ^ rk[4 * c + 3]);
